@@ -548,7 +548,7 @@ class DEVSSimulator(Simulator[TIME], Generic[TIME]):
         
     def schedule_event(self, event: SimEventInterface) -> SimEventInterface:
         """schedule the provided event on the event list"""
-        if event.time < self._simulator_time:
+        if not event.time >= self._simulator_time:
             raise DSOLError("cannot schedule event in the past")
         self._eventlist.add(event)
         return event
@@ -565,7 +565,10 @@ class DEVSSimulator(Simulator[TIME], Generic[TIME]):
                  **kwargs) -> SimEventInterface:
         """schedule a methodCall at a relative duration. The execution 
         time is thus simulator.simulator_time + delay."""
-        if delay < 0:
+        # zero of the time type (a Duration cannot be compared with 0);
+        # the negated test also refuses a delay that is not a number
+        zero = self._simulator_time - self._simulator_time
+        if not delay >= zero:
             raise DSOLError("cannot schedule event in the past")
         return self.schedule_event(SimEvent(self._simulator_time + delay,
                  target, method, priority, **kwargs))
@@ -575,7 +578,7 @@ class DEVSSimulator(Simulator[TIME], Generic[TIME]):
                  **kwargs) -> SimEventInterface:
         """schedule a methodCall at a relative duration. The execution 
         time is thus simulator.simulator_time + delay."""
-        if time < self._simulator_time:
+        if not time >= self._simulator_time:
             raise DSOLError("cannot schedule event in the past")
         return self.schedule_event(SimEvent(time,
                  target, method, priority, **kwargs))
